@@ -226,29 +226,45 @@ def run(R, tier):
 
     # ---- R03.4 routing ----------------------------------------------------------------------------------------------------
     header_match_table(R, "R03.4", eng)
-    # keyword literals are compared with mnemonic_compare (no suffix rule), everything else that matches uses mnemonic_match
+    # keywords (MIN/MAX/DEF/UP/DOWN/INF/NINF/NAN/ONCE) take no numeric suffix: every conversion that recognises a keyword is
+    # folded on the keyword and on the keyword with a `1` appended - the two must not be treated alike (they would be if
+    # the keyword were compared with the header rule mnemonic_match instead of mnemonic_compare)
+    from . import convert as CV
+    targets = []
+    for uname in ("scpi", "scpi_contrib"):
+        un = P.unit(uname)
+        for ty, body in CV.conversions(un):
+            if ty in CV.FLOATS:
+                targets.append((uname, ty, body, [b"MAXimum", b"MINimum", b"INFinity", b"NINFinity", b"NAN"]))
+            elif ty in CV.INTS:
+                targets.append((uname, ty, body, [b"MAXimum", b"MINimum"]))
+            elif "NumericValue<" in ty:
+                targets.append((uname, "NumericValue", body, [b"MAXimum", b"MINimum", b"DEFault", b"UP", b"DOWN"]))
+            elif ty.endswith("util::Auto"):
+                targets.append((uname, "Auto", body, [b"ONCE"]))
     n_kw = 0
-    for unit in P.units:
-        for b in unit.bodies:
-            if b.npath.startswith(UTIL):
+    for uname, ty, body, kws in targets:
+        feng = CV.fold_engine("dflt", uname)
+        bad = []
+        for kw in kws:
+            short = ref_short(kw)
+
+            def res_of(text):
+                rs = CV.fold_character(feng, body, text)
+                if rs is None:
+                    return "undecided"
+                return sorted({(M.outcome(r), repr(fdai.snapshot(r.retval))[:200]) for r in rs})
+            base = res_of(kw)
+            n_kw += 1
+            if base == "undecided" or not all(o[0] == "Ok" for o in base):
+                bad.append("%s is not recognised (%s)" % (kw.decode(), base if base == "undecided" else [o[0] for o in base]))
                 continue
-            S = sym.Sym(b.mir)
-            for c in b.calls():
-                last = c.name.split("::")[-1]
-                if last not in ("mnemonic_compare", "mnemonic_match"):
-                    continue
-                lit = None
-                for a in c.args:
-                    e = sym.norm(S.operand(a))
-                    if e[0] == "bytes":
-                        lit = e[1]
-                if lit is not None and "option::ScpiEnum" in (b.impl_trait or ""):
-                    continue  # derive-generated tables use mnemonic_match by design (property C20)
-                if lit is not None and lit in KEYWORDS:
-                    n_kw += 1
-                    R.check(last == "mnemonic_compare", "R03.4", "keyword:%s@%s" % (lit.decode(), b.npath), "keyword compared with mnemonic_compare (short/long form, no numeric suffix)", "keyword %r is compared with %s in %s: a numeric suffix (e.g. %s1) would be accepted" % (lit, last, b.npath, lit.decode()), where=c.line)
-                elif lit is not None:
-                    R.violation("R03.4", "literal:%r@%s" % (lit, b.npath), "unexpected literal %r compared with %s" % (lit, last), where=c.line)
+            if res_of(short) != base or res_of(kw.lower()) != base:
+                bad.append("%s: short form / lower case is not treated like the long form" % kw.decode())
+            for t in (kw + b"1", short + b"1"):
+                if res_of(t) == base:
+                    bad.append("%s is treated like %s: keywords take no numeric suffix" % (t.decode(), kw.decode()))
+        R.check(not bad, "R03.4", "keywords:%s" % ty, "%s recognised in short and long form, and not with a numeric suffix appended" % ", ".join(k.decode() for k in kws), "; ".join(bad[:4]), where=body.span)
     R.floor("R03.4", "keyword guards", n_kw, 36)
     # public re-exports used by the derive and by contrib resolve to the util functions
     R.trust("core::iter::Iterator::all / rposition, slice::split_at and slice equality behave as documented")
